@@ -140,14 +140,14 @@ def row_npt(rnd):
     return sc
 
 
-def row_gc(rnd):
-    k = rnd.choice([1, 1, 2])
+def row_gc(rnd, dilute=False):
+    k = 1 if dilute else rnd.choice([1, 1, 2])
     L = gen.rfloat(rnd, 7.0, 10.0, 3)
     cell = gen.gen_cell(rnd, triclinic=0.3, lo=7.0, hi=9.0) if rnd.random() < 0.4 else [[L, 0, 0], [0, L, 0], [0, 0, L]]
     V = abs(np.linalg.det(np.array(cell)))
     T = gen.logu(rnd, 200.0, 3000.0)
     kT = T * kB
-    lam = gen.rfloat(rnd, 1.0, 8.0, 3)
+    lam = gen.rfloat(rnd, 0.3, 1.3, 3) if dilute else gen.rfloat(rnd, 1.0, 8.0, 3)
     tnum = [rnd.choice([1, 8, 18]) for _ in range(k)]
     tpos = [[0.0, 0.0, 0.0]] if k == 1 else [[0.0, 0.0, 0.0], [0.0, 0.0, gen.rfloat(rnd, 0.9, 1.4, 3)]]
     from ase.data import atomic_masses
@@ -172,11 +172,14 @@ def row_gc(rnd):
            {"name": "frac_x", "exact": 0.5, "floor": 0.02, "ratio": ["sum_fx", "N", 1]},
            {"name": "frac_y2", "exact": 1.0 / 3.0, "floor": 0.03, "ratio": ["sum_fy2", "N", 1]},
            {"name": "frac_z", "exact": 0.5, "floor": 0.02, "ratio": ["sum_fz", "N", 1]}]
+    if dilute:
+        # the chain visits the empty box often: P(N=0) = exp(-lambda) is sensitive to the N=0 boundary
+        obs.append({"name": "P0", "exact": math.exp(-lam), "floor": 0.03})
     if k == 2:
         obs += [{"name": "cos2_theta", "exact": 1.0 / 3.0, "floor": 0.03, "ratio": ["sum_c2", "N", 1]},
                 {"name": "cos_theta", "exact": 0.0, "floor": 0.03, "ratio": ["sum_c", "N", 1], "absolute": True},
                 {"name": "cos_2phi", "exact": 0.0, "floor": 0.04, "ratio": ["sum_c2phi", "N", 1], "absolute": True}]
-    sc = {"row": "gc_ideal_gas", "proposal": ("atom" if k == 1 else "diatomic") + ("+Ball" if len(moves) > 1 else ""),
+    sc = {"row": "gc_ideal_gas", "proposal": ("dilute_atom" if dilute else "atom" if k == 1 else "diatomic") + ("+Ball" if len(moves) > 1 else ""),
           "driver": "GrandCanonical", "atoms": atoms,
           "exchange": {"numbers": tnum, "positions": tpos, "cell": cell, "pbc": True, "arrays": {}},
           "calc": {"style": "minimal", "pot": {"k": 0.0}},
@@ -186,7 +189,8 @@ def row_gc(rnd):
 
 
 ROWS = [("harmonic", lambda r: row_harmonic(r)), ("harmonic", lambda r: row_harmonic(r)), ("harmonic_hmc", lambda r: row_harmonic(r, True)),
-        ("dipole", row_dipole), ("dipole", row_dipole), ("npt", row_npt), ("npt", row_npt), ("gc", row_gc), ("gc", row_gc), ("gc", row_gc)]
+        ("dipole", row_dipole), ("dipole", row_dipole), ("npt", row_npt), ("npt", row_npt), ("gc", row_gc), ("gc", row_gc),
+        ("gc_dilute", lambda r: row_gc(r, True))]
 
 
 # --------------------------------------------------------------------------------------
@@ -245,6 +249,7 @@ def run_chain(sc: dict, seed: int, nsteps: int) -> dict:
             N = len(atoms) // kk
             acc["N"] = acc.get("N", 0.0) + N
             acc["N2"] = acc.get("N2", 0.0) + N * N
+            acc["P0"] = acc.get("P0", 0.0) + (1.0 if N == 0 else 0.0)
             if N:
                 f = atoms.get_scaled_positions(wrap=True)[::kk]
                 acc["sum_fx"] = acc.get("sum_fx", 0.0) + float(np.sum(f[:, 0]))
